@@ -169,7 +169,7 @@ func TestC05(t *testing.T) {
 		name string
 		g    wfGen
 		n    int
-	}{{"single", gs, r.pick(500, 8000)}, {"flows", g, r.pick(600, 10000)}} {
+	}{{"single", gs, r.pick(500, 20000)}, {"flows", g, r.pick(600, 25000)}} {
 		part := part
 		r.t.Run(part.name, func(t *testing.T) {
 			setRapidChecks(part.n)
